@@ -227,7 +227,7 @@ func (w *World) CheckSettled(after string) {
 		return
 	}
 	if !w.Settle() {
-		w.Fail("C05", "settle:replica-with-fired-monitor-still-attached:"+after, "a replica whose monitor reported a failure (or was stopped) is still attached after 5s: "+w.Describe())
+		w.FailAny([]string{"C05", "C18", "C03", "C13", "C02", "C04"}, "settle:replica-with-fired-monitor-still-attached:"+after, "a replica whose monitor reported a failure (or was stopped) is still attached after 5s: "+w.Describe())
 		return
 	}
 	st := w.C.VerifState()
